@@ -122,7 +122,7 @@ func (ex *Exec) readRoot(st *State, p *Ptr) Val {
 		return v
 	case rGlobal:
 		g := p.Glob.(*ssa.Global)
-		name := "G_" + sanitize(g.Pkg.Pkg.Name()+"_"+g.Name())
+		name := "G_" + sanitize(pkgQualifier(g.Pkg.Pkg)+"_"+g.Name())
 		srt := em.sortOf(p.RootT)
 		return Val{E: em.heapGet(st, name, srt), S: srt, T: p.RootT}
 	case rField:
@@ -150,7 +150,7 @@ func (ex *Exec) writeRoot(st *State, p *Ptr, v Val) {
 		st.cells[c] = v
 	case rGlobal:
 		g := p.Glob.(*ssa.Global)
-		name := "G_" + sanitize(g.Pkg.Pkg.Name()+"_"+g.Name())
+		name := "G_" + sanitize(pkgQualifier(g.Pkg.Pkg)+"_"+g.Name())
 		em.heapSet(st, name, em.sortOf(p.RootT), v.E)
 	case rField:
 		st_ := p.Struct.Underlying().(*types.Struct)
